@@ -15,6 +15,12 @@ schedule = {
   "reps":  [{"len": M, "etag": bool}, {"len": M', "etag": True}]   representation 1 and (after an ETag change) 2,
   "s1":    [szx, ...]   size exponent the server uses in its k-th Block1 acknowledgement (clamped to the request's; last repeats),
   "s2":    [szx, ...]   size exponent of the k-th Block2 response (clamped to the requested one; last repeats),
+  "ack":   ["a"|"s", ...]   how the k-th Block1 request that is not the last one is acknowledged (last repeats):
+                        "a" atomic style: 2.31 Continue, Block1 n/M=1/szx;
+                        "s" stateless style (RFC 7959 2.5/2.9.1): the block is written at its offset and acknowledged on
+                        its own with "ackcode" (2.04 or 2.01), Block1 n/M=0/szx; the body is complete when the block
+                        with the request's M=0 has arrived.  ["a"] atomic, ["s"] stateless, anything else mixed,
+  "ackcode": 68 | 65,
   "net":   {"<i>": "dropreq"|"dropresp"|"dupresp"|"dupreq"}   fate of the i-th request datagram the SUT sends (1-based),
   "fault": None | {"kind": "b1num"|"b1more"|"b1cont"|"b2num"|"b2skip"|"b2short"|"etag", "nth": n, "short": bytes},
   "dedup": bool   (the server answers a repeated message ID from its response cache, RFC 7252 4.5)
@@ -84,6 +90,8 @@ def run(sched):
     reps = sched.get("reps") or [{"len": 0, "etag": True}]
     s1 = list(sched.get("s1") or [6])
     s2 = list(sched.get("s2") or [6])
+    ackstyle = list(sched.get("ack") or ["a"])
+    ackcode = sched.get("ackcode", wire.CHANGED)
     net = {int(k): v for k, v in (sched.get("net") or {}).items()}
     fault = dict(sched["fault"]) if sched.get("fault") else None
     dedup = sched.get("dedup", True)
@@ -146,6 +154,10 @@ def run(sched):
             if fault_wants("b1num", count, deliverable):
                 anum, x = num + 1, "b1num"
                 fire(x)
+            if more and pick(ackstyle, count) == "s":
+                # stateless style: this block has been enacted on its own
+                f.update(b1n=anum, b1m=0, b1s=aszx)
+                return ackcode, [(wire.BLOCK1, wire.block(anum, False, aszx))], b"", dict(f, x=x)
             if more:
                 f.update(b1n=anum, b1m=1, b1s=aszx)
                 return wire.CONTINUE, [(wire.BLOCK1, wire.block(anum, True, aszx))], b"", dict(f, x=x)
